@@ -14,7 +14,9 @@ RULE = ("random metadata trees: depth 0..8 (thorough: chains of 1000..1003 level
         "(empty / one-byte names, empty values: the densest legal encoding, alone and below a parent); through the bare "
         "MetadataEncoder/Decoder and attached to point clouds and meshes under every method; decoder on mutated and "
         "random bytes. Model bytes/status/decoded tree must equal the implementation's; the property "
-        "(decoded tree == input tree, or the encoder reports failure) is evaluated on the implementation")
+        "(decoded tree == input tree, or the encoder reports failure) is evaluated on the implementation"
+        '; after the round trip attribute metadata must still name the attribute it was attached to (unique-id '
+        'check, signature attribute-metadata-orphaned)')
 THEOREM_BACKED = ("metadata_c11_fixed / geometry_metadata_c11_fixed: for every canonical tree either the encoder reports "
                   "success and decoding returns exactly the tree (any trailing bytes), or the encoder reports failure; "
                   "metadata_decoder_is_stack_loop; metadata_decoder_output_canonical")
